@@ -16,7 +16,7 @@ DICTS = ['d0']
 INT_LITS = ['0', '1', '2', '3', '5', '7', '10', '12', '-1', '-4', '100']
 STR_LITS = ["'a'", "'abc'", "'Hello World'", "''", "'x y z'", "'42'", "'Py'", "'naïve'", "'tab\\there'", "'line\\nbreak'"]
 SMALL = ['1', '2', '3']
-PROMPTS = ["'«p1»'", "'«p2» '", "'«p3»: '", "''"]
+PROMPTS = ["'«p1»'", "'«p2» '", "'«p3»: '"]   # every input() carries a marked prompt so that echoes can be removed
 
 PRELUDE = '''import sys
 import math
@@ -40,7 +40,7 @@ class Acc:
         return self.v
 
     def __repr__(self):
-        return 'Acc(%r)' % self.v
+        return 'Acc(%r)' % (self.v,)
 
 
 def h0(a, b=2):
@@ -67,6 +67,27 @@ def describe(items, sep=', '):
     for it in items:
         out.append(str(it))
     return sep.join(out)
+
+
+def echo(x):
+    return x
+
+
+def pair(a, b=None, *rest, **kw):
+    return (a, b, rest, sorted(kw.items()))
+
+
+def first(seq):
+    return seq[0]
+
+
+def total(d):
+    return sum(d.values())
+
+
+def shout(text, times=1):
+    print(text * times)
+    return len(text)
 '''
 
 RISKS = {
@@ -255,13 +276,11 @@ def statement(draw, depth=2, in_loop=False, allow_input=True):
     if k == 11:
         if not allow_input:
             return 'print(%s)' % draw(str_expr(1))
-        form = draw(st.integers(0, 2))
+        form = draw(st.integers(0, 1))
         p = draw(st.sampled_from(PROMPTS))
         if form == 0:
             return '%s = input(%s)' % (draw(st.sampled_from(STRS)), p)
-        if form == 1:
-            return '%s = int(input(%s))' % (draw(st.sampled_from(INTS)), p)
-        return '%s = input()' % draw(st.sampled_from(STRS))
+        return '%s = int(input(%s))' % (draw(st.sampled_from(INTS)), p)
     if k == 12:
         return '%s.append(%s)' % (draw(st.sampled_from(LISTS)), draw(int_expr(1)))
     if k == 13:
@@ -282,6 +301,8 @@ def statement(draw, depth=2, in_loop=False, allow_input=True):
         return '%s = math.%s' % (draw(st.sampled_from(INTS)), draw(st.sampled_from(['floor(i0 / 3)', 'ceil(i1 / 4)', 'isqrt(abs(i2))', 'gcd(i0, 12)'])))
     if k == 20:
         return "assert isinstance(%s, int), 'sanity'" % draw(st.sampled_from(INTS))
+    if k == 21 and not in_loop and draw(st.booleans()):
+        return draw(st.sampled_from(["if __name__ == '__main__':\n    print('running as main')", 'print(__name__)', 's1 = __name__']))
     if k == 21:
         if in_loop:
             return draw(st.sampled_from(['if i0 > 3:\n    break', 'if i1 % 2 == 0:\n    continue']))
@@ -365,4 +386,27 @@ def cs1_program(draw, max_statements=12, risk=None, allow_input=True, depth=2):
 
 
 def input_queue():
-    return st.lists(st.sampled_from(['5', '12', 'hello', '0', '-3', ' 7 ', 'x y', '']), max_size=5)
+    return st.lists(st.sampled_from(['5', '12', 'hello', '0', '-3', ' 7 ', 'x y', '', '3', '41']), max_size=5)
+
+
+ARG_VALUES = ['0', '1', '-7', '10 ** 30', '2.5', '-0.0', '0.1 + 0.2', '1e-07', '123456.789012345', '2 / 3', "float('nan')", "float('inf')", "-float('inf')", 'True', 'None', "''", "'abc'", "'x' * 300",
+              "'quote\'s \\ and \n newline'", '[]', '[1, 2, 3]', "[1, 'a', None, [2.5, (3,)]]", 'list(range(120))', '(1, 2)', '()', "('a',)",
+              "{'a': 1, 'b': 2}", "{}", "{1: [1, 2], 'k': {'z': None}}", '{1, 2, 3}', 'set()', 'frozenset({1})', "[float('nan')]", "{'v': float('inf')}",
+              "b'bytes'", '(1+2j)', 'range(3)', "'naïve ✓'"]
+CALLABLES = {  # name -> (min args, max args, accepts kwargs)
+    'echo': (1, 1, False), 'pair': (1, 4, True), 'first': (1, 1, False), 'total': (1, 1, False), 'h0': (1, 2, False),
+    'fact': (1, 1, False), 'bump': (0, 1, False), 'describe': (1, 2, False), 'shout': (1, 2, False), 'Acc': (1, 1, False),
+}
+
+
+@st.composite
+def call_spec(draw):
+    name = draw(st.sampled_from(sorted(CALLABLES)))
+    lo, hi, kw = CALLABLES[name]
+    n = draw(st.integers(lo, hi))
+    args = [draw(st.sampled_from(ARG_VALUES)) for _ in range(n)]
+    kwargs = {}
+    if kw and draw(st.booleans()):
+        for key in draw(st.lists(st.sampled_from(['k1', 'k2', 'zeta']), max_size=2, unique=True)):
+            kwargs[key] = draw(st.sampled_from(ARG_VALUES))
+    return {'f': name, 'args': args, 'kwargs': kwargs}
